@@ -76,7 +76,7 @@ func drawOp(t *rapid.T, actor, ndocs, pref int, label string) Step {
 	st := drawOp0(t, actor, ndocs, label)
 	if pref >= 0 {
 		switch st.K {
-		case "create", "update", "delete", "get":
+		case "create", "update", "delete", "get", "exists":
 			if rapid.IntRange(0, 7).Draw(t, label+"own") != 3 {
 				st.D = pref % ndocs
 			}
@@ -92,7 +92,7 @@ func drawOp(t *rapid.T, actor, ndocs, pref int, label string) Step {
 func drawOp0(t *rapid.T, actor, ndocs int, label string) Step {
 	st := Step{A: actor}
 	// weights: update 6, create 4, delete 3, get 4, list 3, count 1, indexes 1 (per 22), DDL ~1/22
-	k := rapid.IntRange(0, 24).Draw(t, label+"kind")
+	k := rapid.IntRange(0, 26).Draw(t, label+"kind")
 	switch {
 	case k < 6:
 		st.K = "update"
@@ -110,6 +110,8 @@ func drawOp0(t *rapid.T, actor, ndocs int, label string) Step {
 		st.K = "indexes"
 	case k < 24:
 		st.K = "docids"
+	case k < 26:
+		st.K = "exists"
 	default:
 		if rapid.IntRange(0, 2).Draw(t, label+"ddl") < 2 {
 			st.K = "mkindex"
@@ -119,7 +121,7 @@ func drawOp0(t *rapid.T, actor, ndocs int, label string) Step {
 	}
 	st.R = rapid.IntRange(0, 2).Draw(t, label+"route")
 	switch st.K {
-	case "create", "delete", "get":
+	case "create", "delete", "get", "exists":
 		st.D = rapid.IntRange(0, ndocs-1).Draw(t, label+"doc")
 	case "update":
 		st.D = rapid.IntRange(0, ndocs-1).Draw(t, label+"doc")
